@@ -214,6 +214,31 @@ pub fn run(tier: Tier) -> ! {
             }
         }
     });
+    // very long dictionary words (around the u8 limit of the length bucket)
+    {
+        let mut jobs = vec![];
+        for &len in &[255usize, 256, 257, 300] {
+            for &bucket in &[1u8, 4, 255] {
+                let w = "a".repeat(len);
+                let cfg = Config { charw: 1, charn: 1, typew: 1, typen: 1, dict: vec![w.clone(), "b".into()], bucket, solver: 1 };
+                let corpus = Corpus { name: format!("long-word-{len}"), lines: vec![(false, format!("b {w} b")), (false, "ab b a".to_string())], tag_dict: vec![] };
+                jobs.push((cfg, corpus));
+            }
+        }
+        jobs.par_iter().for_each(|(cfg, corpus)| {
+            chk.eval(1);
+            let (t, v) = check_case(cfg, corpus, &texts);
+            if t {
+                models.fetch_add(1, std::sync::atomic::Ordering::Relaxed);
+                chk.nontrivial(1);
+            }
+            if let Some((k, what)) = v {
+                let mut c2 = cfg.clone();
+                c2.dict = vec![format!("a^{}", cfg.dict[0].chars().count()), "b".into()];
+                chk.violation(sig(&k, &c2, corpus), what, json!({"cfg": cfg, "corpus": corpus, "kind": k, "noreplay": true}));
+            }
+        });
+    }
     chk.set("trainings_that_returned_a_model", json!(models.into_inner()));
     chk.sample(json!({"cfg": "cw=1 cn=3 tw=0 tn=2 dict=[a,ab,abc,あ] bucket=2 solver=5", "corpus": "tagged-3cat-partial"}));
     chk.sample(json!({"cfg": "cw=2 cn=2 tw=2 tn=2 solver=1", "corpus": "no-word-boundary", "allowed": "Err, never a panic"}));
